@@ -1,8 +1,627 @@
 import QP.Base
+/-!
+# C19 — waveform-memory placement of the Tabor driver
+
+Model of
+
+* `qupulse.hardware.util.find_positions`,
+* `qupulse._program.tabor.find_place_for_segments_in_memory` (the placement decision),
+* the bookkeeping of `qupulse.hardware.awgs.tabor.TaborChannelPair`
+  (`upload`, `free_program`, `remove`, `cleanup`, `clear`, `_upload_segment`, `_amend_segments`).
+
+numpy is spelled out on lists: `flatnonzero`, boolean masks, stable `argsort`, `argmax` (index of the
+first `True`, `0` if there is none, `ValueError` on an empty array), fancy-index in-place addition
+(`a[idx] += 1` adds **once** per distinct index), negative index wrap-around, slicing.
+Where Python raises, the model returns the error class; nothing is totalised.
+-/
 namespace QP.C19
+
+inductive Err where
+  | noMemory       -- RuntimeError('Not enough free memory. …')
+  | fragmentation  -- RuntimeError('Fragmentation does not allow upload.', …)
+  | assertion      -- the `assert` on the known positions
+  | index          -- IndexError: subscript out of range / boolean mask of the wrong shape
+  | emptyArgmax    -- ValueError: attempt to get argmax of an empty sequence
+  | valueError     -- driver: ValueError('… is already known …' / 'Reference count not zero' / 'Cannot upload segment here.')
+  | keyError       -- driver: KeyError (unknown program name)
+  deriving Repr, BEq, DecidableEq
+
+/-! ## numpy on lists -/
+
+/-- `np.flatnonzero(mask)` -/
+def flatnonzero (m : List Bool) : List Nat :=
+  (List.range m.length).filter (fun i => m[i]? == some true)
+
+/-- `xs[mask]` for a boolean mask of the same shape (the shape is guarded where the model uses it) -/
+def maskL {α} (xs : List α) (m : List Bool) : List α :=
+  ((xs.zip m).filter (fun p => p.2)).map (fun p => p.1)
+
+/-- insert `x` in front of the first element that is not smaller (keeps equal keys in input order) -/
+def insertSorted {α} (le : α → α → Bool) (x : α) : List α → List α
+  | [] => [x]
+  | y :: ys => if le x y then x :: y :: ys else y :: insertSorted le x ys
+
+/-- a stable sort (insertion sort, structurally recursive): the unique sorted permutation in which
+elements with equal keys keep their input order — what `kind='stable'` guarantees -/
+def stableSort {α} (le : α → α → Bool) (l : List α) : List α := l.foldr (insertSorted le) []
+
+/-- `np.argsort(xs, kind='stable')` -/
+def argsortStable (xs : List Nat) : List Nat :=
+  (stableSort (fun a b => decide (a.1 ≤ b.1)) xs.zipIdx).map (fun p => p.2)
+
+/-- `xs[idx]` for an integer index array of non-negative indices -/
+def gather {α} (xs : List α) : List Nat → Except Err (List α)
+  | [] => .ok []
+  | k :: ks =>
+    match xs[k]? with
+    | none => .error .index
+    | some x =>
+      match gather xs ks with
+      | .error e => .error e
+      | .ok r => .ok (x :: r)
+
+/-- `np.argmax` of a boolean array: first `True`, `0` if all are `False`, `ValueError` if empty -/
+def argmax (l : List Bool) : Except Err Nat :=
+  match l with
+  | [] => .error .emptyArgmax
+  | _ :: _ => match l.findIdx? (fun b => b) with
+    | some i => .ok i
+    | none => .ok 0
+
+/-- numpy index normalisation for an array of length `n` -/
+def normIdx (n : Nat) (k : Int) : Option Nat :=
+  if 0 ≤ k ∧ k < n then some k.toNat
+  else if -(n : Int) ≤ k ∧ k < 0 then some (k + n).toNat
+  else none
+
+/-- `a[idx] = f(a[idx])` for an integer index array (`a[idx] += 1`, `a[idx] -= 1`): the right-hand side is
+computed from the old array and written back, so every distinct index is updated **once** -/
+def updAt (a : List Nat) (idx : List Int) (f : Nat → Nat) : Except Err (List Nat) :=
+  if idx.all (fun k => (normIdx a.length k).isSome) then
+    .ok (a.mapIdx (fun i r => if idx.any (fun k => normIdx a.length k == some i) then f r else r))
+  else .error .index
+
+/-- uint32 decrement (the driver's reference counters are `np.uint32` after `clear()`; after the first
+`_amend_segments` numpy's `concatenate` silently turns them into int64 — under the invariant a counter is
+never decremented at 0, so the two readings cannot be told apart) -/
+def decU32 (r : Nat) : Nat := if r = 0 then 4294967295 else r - 1
+
+/-! ## `find_positions` -/
+
+/-- `data[data_sorter]` paired with `data_sorter` -/
+def sortedPairs (data : List Int) : List (Int × Nat) :=
+  stableSort (fun a b => decide (a.1 ≤ b.1)) data.zipIdx
+
+/-- one element of `to_find`: `searchsorted(…, side='left')`, `side='right'` on the sorted data are the
+lengths of the prefixes `< x` and `≤ x` -/
+def findPosition (data : List Int) (x : Int) : Int :=
+  let sp := sortedPairs data
+  let left := (sp.takeWhile (fun p => decide (p.1 < x))).length
+  let right := (sp.takeWhile (fun p => decide (p.1 ≤ x))).length
+  if left < right then
+    match sp[left]? with
+    | some p => (p.2 : Int)
+    | none => -1
+  else -1
+
+def findPositions (data toFind : List Int) : List Int := toFind.map (findPosition data)
+
+/-! ## `find_place_for_segments_in_memory` -/
+
+structure Inp where
+  hashes : List Int
+  refs : List Nat
+  caps : List Nat
+  total : Int
+  newHashes : List Int
+  newLens : List Nat
+  deriving Repr, BEq, DecidableEq
+
+/-- `(waveform_to_segment, to_amend, to_insert)` -/
+structure Out where
+  w2s : List Int
+  amend : List Bool
+  insert : List Int
+  deriving Repr, BEq, DecidableEq
+
+structure LoopSt where
+  free : List Bool
+  count : Int
+  amend : List Bool
+  insert : List Int
+  deriving Repr, BEq, DecidableEq
+
+/-- `np.sum(lengths[mask] + 16)` -/
+def sizeWithOverhead (lens : List Nat) (m : List Bool) : Int :=
+  (((maskL lens m).map (fun l => l + 16)).sum : Nat)
+
+/-- `np.sum(capacities)` as an integer -/
+def sumNat (xs : List Nat) : Int := (xs.sum : Nat)
+
+/-- body of the first loop ("free segment place with the same length") -/
+def body1 (caps : List Nat) (ff : Nat) (lens : List Nat) (seg : Nat) (st : LoopSt) : Except Err LoopSt :=
+  match lens[seg]? with
+  | none => .error .index
+  | some len =>
+    let pos := List.zipWith (fun f c => f && decide (len = c)) st.free (caps.take ff)
+    match argmax pos with
+    | .error e => .error e
+    | .ok idx =>
+      if pos[idx]? = some true then
+        .ok { free := st.free.set idx false, count := st.count - 1,
+              amend := st.amend.set seg false, insert := st.insert.set seg idx }
+      else .ok st
+
+def loop1 (caps : List Nat) (ff : Nat) (lens : List Nat) : List Nat → LoopSt → Except Err LoopSt
+  | [], st => .ok st
+  | seg :: rest, st =>
+    if st.count = 0 then .ok st else      -- `if free_segment_count == 0: break`
+    match body1 caps ff lens seg st with
+    | .error e => .error e
+    | .ok st' => loop1 caps ff lens rest st'
+
+/-- body of the second loop ("places that are larger"); `none` is `break` -/
+def body2 (caps : List Nat) (ff : Nat) (lens : List Nat) (seg : Nat) (st : LoopSt) :
+    Except Err (Option LoopSt) :=
+  let freeCaps := maskL (caps.take ff) st.free
+  match gather (flatnonzero st.free) (argsortStable freeCaps).reverse with
+  | .error e => .error e
+  | .ok freeIdx =>
+    if freeIdx.isEmpty then .ok none else
+    match lens[seg]? with
+    | none => .error .index
+    | some len =>
+      -- index into the *unsorted, reversed* comparison, used on the *sorted* index list (as in the code)
+      match argmax ((freeCaps.map (fun c => decide (len ≤ c))).reverse) with
+      | .error e => .error e
+      | .ok fit =>
+        match freeIdx[fit]? with
+        | none => .error .index
+        | some fs =>
+          match caps[fs]? with
+          | none => .error .index
+          | some c =>
+            if len ≤ c then
+              .ok (some { free := st.free.set fs false, count := st.count,
+                          amend := st.amend.set seg false, insert := st.insert.set seg fs })
+            else .ok (some st)
+
+def loop2 (caps : List Nat) (ff : Nat) (lens : List Nat) : List Nat → LoopSt → Except Err LoopSt
+  | [], st => .ok st
+  | seg :: rest, st =>
+    match body2 caps ff lens seg st with
+    | .error e => .error e
+    | .ok none => .ok st
+    | .ok (some st') => loop2 caps ff lens rest st'
+
+/-- `reserved_indices[-1] + 1 if len(reserved_indices) else 0` -/
+def firstFree (newRefs : List Nat) : Nat :=
+  match (flatnonzero (newRefs.map (fun r => decide (0 < r)))).getLast? with
+  | some l => l + 1
+  | none => 0
+
+/-- `waveform_to_segment[known]` -/
+def knownPos (w2s : List Int) : List Int := w2s.filter (fun s => s != -1)
+
+/-- the `assert`: `hashes[known_pos] == new_hashes[known]` elementwise -/
+def knownAssert (hashes newHashes : List Int) (w2s : List Int) : Bool :=
+  (w2s.zip newHashes).all (fun p => p.1 == -1 ||
+    (match normIdx hashes.length p.1 with
+     | some s => hashes[s]? == some p.2
+     | none => false))
+
+def findPlace (i : Inp) : Except Err Out :=
+  if i.refs.length ≠ i.hashes.length ∨ i.caps.length ≠ i.hashes.length ∨
+      i.newLens.length ≠ i.newHashes.length then .error .index else
+  let w2s := findPositions i.hashes i.newHashes
+  let unknown := w2s.map (fun s => s == -1)
+  if !(knownAssert i.hashes i.newHashes w2s) then .error .assertion else
+  match updAt i.refs (knownPos w2s) (fun r => r + 1) with
+  | .error e => .error e
+  | .ok newRefs =>
+    let toUpload := sizeWithOverhead i.newLens unknown
+    let freeTotal := i.total - sumNat (maskL i.caps (i.refs.map (fun r => decide (0 < r))))
+    if freeTotal < toUpload then .error .noMemory else
+    let ff := firstFree newRefs
+    let free0 := (newRefs.take ff).map (fun r => r == 0)
+    let st0 : LoopSt := ⟨free0, (free0.count true : Nat), unknown, List.replicate i.newHashes.length (-1)⟩
+    match loop1 i.caps ff i.newLens (flatnonzero unknown) st0 with
+    | .error e => .error e
+    | .ok st1 =>
+      -- np.flatnonzero(to_amend)[np.argsort(lengths[to_amend], kind='stable')[::-1]]
+      match gather (flatnonzero st1.amend) (argsortStable (maskL i.newLens st1.amend)).reverse with
+      | .error e => .error e
+      | .ok order =>
+        match loop2 i.caps ff i.newLens order st1 with
+        | .error e => .error e
+        | .ok st2 =>
+          let freeAtEnd := i.total - sumNat (i.caps.take ff)
+          if sizeWithOverhead i.newLens st2.amend > freeAtEnd then .error .fragmentation
+          else .ok ⟨w2s, st2.amend, st2.insert⟩
+
+/-! ## Specification of a safe placement (independent of the algorithm) -/
+
+/-- new segment `k` re-uses slot `s`, which holds the identical hash -/
+def IsKnown (i : Inp) (o : Out) (k : Nat) : Prop :=
+  o.amend[k]? = some false ∧ o.insert[k]? = some (-1) ∧
+  match o.w2s[k]?, i.newHashes[k]? with
+  | some v, some h => 0 ≤ v ∧ i.hashes[v.toNat]? = some h
+  | _, _ => False
+
+/-- new segment `k` overwrites slot `s`: nobody references it and its capacity suffices -/
+def IsInsert (i : Inp) (o : Out) (k : Nat) : Prop :=
+  o.w2s[k]? = some (-1) ∧ o.amend[k]? = some false ∧
+  match o.insert[k]?, i.newLens[k]? with
+  | some v, some len =>
+      0 ≤ v ∧ i.refs[v.toNat]? = some 0 ∧
+      (match i.caps[v.toNat]? with
+       | some c => len ≤ c
+       | none => False)
+  | _, _ => False
+
+/-- new segment `k` is appended behind the used part of the memory -/
+def IsAmend (_i : Inp) (o : Out) (k : Nat) : Prop :=
+  o.w2s[k]? = some (-1) ∧ o.amend[k]? = some true ∧ o.insert[k]? = some (-1)
+
+/-- `F` is a boundary behind every used slot: referenced before, re-used now, or overwritten now -/
+def BehindUsed (i : Inp) (o : Out) (F : Nat) : Prop :=
+  (∀ s, s < i.refs.length → F ≤ s → i.refs[s]? = some 0) ∧
+  (∀ v, v ∈ o.w2s → v < F) ∧
+  (∀ v, v ∈ o.insert → v < F)
+
+/-- the entry names a slot (it is not the "none" marker `-1`) -/
+def IsSlot (x : Option Int) : Prop :=
+  match x with
+  | some v => 0 ≤ v
+  | none => False
+
+def PlaceSafe (i : Inp) (o : Out) : Prop :=
+  -- shapes
+  (o.w2s.length = i.newHashes.length ∧ o.amend.length = i.newHashes.length ∧
+   o.insert.length = i.newHashes.length) ∧
+  -- every new segment is accounted for in exactly one way (the three cases exclude each other)
+  (∀ k, k < i.newHashes.length → IsKnown i o k ∨ IsInsert i o k ∨ IsAmend i o k) ∧
+  -- overwritten slots are pairwise distinct …
+  (∀ k, k < o.insert.length → ∀ l, l < o.insert.length → k ≠ l →
+      IsSlot o.insert[k]? → o.insert[k]? ≠ o.insert[l]?) ∧
+  -- … and distinct from every re-used slot
+  (∀ v, v ∈ o.insert → 0 ≤ v → v ∉ o.w2s) ∧
+  -- if anything is appended: the appended segments (16 points of overhead each) fit behind the last used slot
+  (true ∈ o.amend → ∃ F, F ≤ i.caps.length ∧ BehindUsed i o F ∧
+      sizeWithOverhead i.newLens o.amend + sumNat (i.caps.take F) ≤ i.total)
+
+instance (i : Inp) (o : Out) (k : Nat) : Decidable (IsKnown i o k) := by
+  unfold IsKnown; split <;> infer_instance
+instance (i : Inp) (o : Out) (k : Nat) : Decidable (IsInsert i o k) := by
+  unfold IsInsert
+  split
+  · rename_i v len _ _
+    cases i.caps[v.toNat]? <;> infer_instance
+  · infer_instance
+instance (i : Inp) (o : Out) (k : Nat) : Decidable (IsAmend i o k) := by
+  unfold IsAmend; infer_instance
+instance (x : Option Int) : Decidable (IsSlot x) := by
+  unfold IsSlot; split <;> infer_instance
+
+instance (i : Inp) (o : Out) (F : Nat) : Decidable (BehindUsed i o F) := by
+  unfold BehindUsed; infer_instance
+
+instance (i : Inp) (o : Out) : Decidable (PlaceSafe i o) := by
+  unfold PlaceSafe
+  refine @instDecidableAnd _ _ inferInstance ?_
+  refine @instDecidableAnd _ _ inferInstance ?_
+  refine @instDecidableAnd _ _ inferInstance ?_
+  refine @instDecidableAnd _ _ inferInstance ?_
+  infer_instance
+
+/-- executable twin of `PlaceSafe`: the judge applied to the implementation's answer -/
+def placeSafeB (i : Inp) (o : Out) : Bool := decide (PlaceSafe i o)
+
+/-- which clause fails (for replay files) -/
+def judgePlace (i : Inp) (o : Out) : String :=
+  if ¬ (o.w2s.length = i.newHashes.length ∧ o.amend.length = i.newHashes.length ∧
+        o.insert.length = i.newHashes.length) then "shape"
+  else if ¬ (∀ k, k < i.newHashes.length → IsKnown i o k ∨ IsInsert i o k ∨ IsAmend i o k) then
+    (match (List.range i.newHashes.length).find? (fun k => ¬ (IsKnown i o k ∨ IsInsert i o k ∨ IsAmend i o k)) with
+     | some k =>
+        if o.w2s[k]? ≠ some (-1) then s!"segment-{k}-reuses-slot-with-different-hash-or-is-double-booked"
+        else if o.amend[k]? = some true then s!"segment-{k}-both-amended-and-inserted"
+        else if o.insert[k]? = some (-1) then s!"segment-{k}-not-accounted-for"
+        else s!"segment-{k}-inserted-into-referenced-or-too-small-or-invalid-slot"
+     | none => "accounting")
+  else if ¬ (∀ k, k < o.insert.length → ∀ l, l < o.insert.length → k ≠ l →
+      IsSlot o.insert[k]? → o.insert[k]? ≠ o.insert[l]?) then "same-slot-overwritten-twice"
+  else if ¬ (∀ v, v ∈ o.insert → 0 ≤ v → v ∉ o.w2s) then "overwritten-slot-is-also-reused"
+  else if placeSafeB i o then "ok" else "appended-segments-do-not-fit-behind-last-used-slot"
+
+/-! ## The driver's bookkeeping (`TaborChannelPair`) -/
+
+/-- `TaborProgramMemory`: the program's waveform→slot array; ghost: the identity (hash) of each of its
+own segments -/
+structure Prog where
+  name : Nat
+  w2s : List Int
+  segs : List Int
+  deriving Repr, BEq, DecidableEq
+
+structure Mem where
+  hashes : List Int      -- `_segment_hashes`
+  caps : List Nat        -- `_segment_capacity`
+  lens : List Nat        -- `_segment_lengths`
+  refs : List Nat        -- `_segment_references`
+  progs : List Prog      -- `_known_programs` (insertion ordered dict)
+  contents : List Int    -- ghost: identity of the data that was last written to the slot on the instrument
+  deriving Repr, BEq, DecidableEq
+
+inductive Op where
+  | upload (name : Nat) (force : Bool) (segs : List (Int × Nat))
+  | remove (name : Nat)
+  | free (name : Nat)
+  | cleanup
+  | clear
+  deriving Repr, BEq, DecidableEq
+
+/-- `clear()`: slot 0 holds the idle segment (192 points) with a permanent reference -/
+def Mem.init (idle : Int) : Mem :=
+  ⟨[idle], [192], [192], [1], [], [idle]⟩
+
+/-- `free_program(name)` -/
+def freeProgram (m : Mem) (name : Nat) : Except Err Mem :=
+  match m.progs.find? (fun p => p.name == name) with
+  | none => .error .keyError
+  | some p =>
+    let m' := { m with progs := m.progs.filter (fun q => q.name != name) }   -- `pop`
+    match updAt m.refs p.w2s decU32 with
+    | .error e => .error e                    -- IndexError; the program is already popped
+    | .ok refs => .ok { m' with refs := refs }
+
+/-- state after a failing `free_program` (the `pop` happened, the counters are untouched) -/
+def freeProgramPartial (m : Mem) (name : Nat) : Mem :=
+  { m with progs := m.progs.filter (fun q => q.name != name) }
+
+/-- `cleanup()` -/
+def cleanup (m : Mem) : Mem :=
+  let newEnd := firstFree m.refs
+  { m with lens := m.lens.take newEnd, caps := m.caps.take newEnd, hashes := m.hashes.take newEnd,
+           refs := m.refs.take newEnd, contents := m.contents.take newEnd }
+
+/-- `_upload_segment(segment_index, segment)`; the index is a non-negative numpy integer -/
+def uploadSegment (m : Mem) (idx : Nat) (h : Int) (len : Nat) : Except Err Mem :=
+  match m.refs[idx]?, m.caps[idx]? with
+  | some r, some c =>
+    if 0 < r then .error .valueError           -- 'Reference count not zero'
+    else if c < len then .error .valueError    -- 'Cannot upload segment here.'
+    else if idx < m.lens.length ∧ idx < m.hashes.length then
+      .ok { m with lens := m.lens.set idx len, refs := m.refs.set idx 1, hashes := m.hashes.set idx h,
+                   contents := m.contents.set idx h }   -- TRAC:DEF / TRAC:SEL / TRAC:DATA
+    else .error .index
+  | _, _ => .error .index
+
+/-- the `for wf_index in np.flatnonzero(to_insert > 0)` loop; on an error the state reached so far is
+returned together with the error (the real method leaves exactly that behind) -/
+def insertLoop (segs : List (Int × Nat)) (ins : List Int) :
+    List Nat → Mem → List Int → Mem × List Int × Option Err
+  | [], m, w2s => (m, w2s, none)
+  | wf :: rest, m, w2s =>
+    match ins[wf]?, segs[wf]? with
+    | some t, some (h, len) =>
+      match uploadSegment m t.toNat h len with
+      | .error e => (m, w2s, some e)
+      | .ok m' => insertLoop segs ins rest m' (w2s.set wf t)
+    | _, _ => (m, w2s, some .index)
+
+/-- `_amend_segments(segments)`: append; returns the new state and the first new index -/
+def amendSegments (m : Mem) (segs : List (Int × Nat)) : Mem × Nat :=
+  ({ m with caps := m.caps ++ segs.map (fun s => s.2), lens := m.lens ++ segs.map (fun s => s.2),
+            refs := m.refs ++ segs.map (fun _ => 1), hashes := m.hashes ++ segs.map (fun s => s.1),
+            contents := m.contents ++ segs.map (fun s => s.1) },
+   m.caps.length)
+
+/-- `a[mask] = values` (boolean mask assignment, `values` in order) -/
+def assignMask : List Int → List Bool → List Int → List Int
+  | [], _, _ => []
+  | x :: xs, [], _ => x :: xs
+  | x :: xs, false :: ms, vs => x :: assignMask xs ms vs
+  | x :: xs, true :: ms, [] => x :: assignMask xs ms []
+  | _ :: xs, true :: ms, v :: vs => v :: assignMask xs ms vs
+
+inductive Outcome where
+  | ok
+  | error (e : Err)
+  deriving Repr, BEq, DecidableEq
+
+/-- the part of `upload` after the placement decision -/
+def applyPlacement (m : Mem) (name : Nat) (segs : List (Int × Nat)) (o : Out) : Mem × Outcome :=
+  -- self._segment_references[waveform_to_segment[waveform_to_segment >= 0]] += 1
+  match updAt m.refs (o.w2s.filter (fun s => decide (0 ≤ s))) (fun r => r + 1) with
+  | .error e => (m, .error e)
+  | .ok refs1 =>
+    let m1 := { m with refs := refs1 }
+    match insertLoop segs o.insert (flatnonzero (o.insert.map (fun t => decide (0 < t)))) m1 o.w2s with
+    | (m2, _, some e) => (m2, .error e)
+    | (m2, w2s2, none) =>
+      let (m3, w2s3) :=
+        if o.amend.any (fun b => b) then
+          let (m3, first) := amendSegments m2 (maskL segs o.amend)
+          -- segment_index + np.arange(len(segments))
+          (m3, assignMask w2s2 o.amend ((List.range' first (maskL segs o.amend).length).map (fun (j : Nat) => (j : Int))))
+        else (m2, w2s2)
+      ({ m3 with progs := m3.progs ++ [⟨name, w2s3, segs.map (fun s => s.1)⟩] }, .ok)
+
+/-- one public operation of the channel pair; `total` is `total_capacity`, `idle` the idle segment's hash -/
+def step (total : Int) (idle : Int) (m : Mem) : Op → Mem × Outcome
+  | .clear => (Mem.init idle, .ok)
+  | .cleanup => (cleanup m, .ok)
+  | .free name =>
+    match freeProgram m name with
+    | .ok m' => (m', .ok)
+    | .error .keyError => (m, .error .keyError)
+    | .error e => (freeProgramPartial m name, .error e)
+  | .remove name =>
+    match freeProgram m name with
+    | .ok m' => (cleanup m', .ok)
+    | .error .keyError => (m, .error .keyError)
+    | .error e => (freeProgramPartial m name, .error e)
+  | .upload name force segs =>
+    let pre : Except Err Mem :=
+      if m.progs.any (fun p => p.name == name) then
+        if force then freeProgram m name else .error .valueError
+      else .ok m
+    match pre with
+    | .error .valueError => (m, .error .valueError)
+    | .error e => (freeProgramPartial m name, .error e)
+    | .ok m0 =>
+      match findPlace ⟨m0.hashes, m0.refs, m0.caps, total, segs.map (fun s => s.1), segs.map (fun s => s.2)⟩ with
+      | .error e => (m0, .error e)
+      | .ok o => applyPlacement m0 name segs o
+
+/-- a history of operations -/
+def run (total idle : Int) : Mem → List Op → Mem
+  | m, [] => m
+  | m, op :: ops => run total idle (step total idle m op).1 ops
+
+/-- states after every operation (for the correspondence) -/
+def trace (total idle : Int) : Mem → List Op → List (Mem × Outcome)
+  | _, [] => []
+  | m, op :: ops =>
+    let r := step total idle m op
+    r :: trace total idle r.1 ops
+
+/-! ## The history invariant -/
+
+/-- number of uploaded programs that refer to slot `s` -/
+def refCount (progs : List Prog) (s : Nat) : Nat :=
+  progs.countP (fun p => p.w2s.contains (s : Int))
+
+/-- every waveform of the program points at a slot that holds that waveform's data -/
+def ProgOk (m : Mem) (p : Prog) : Prop :=
+  p.w2s.length = p.segs.length ∧
+  ∀ k, k < p.w2s.length → ∀ v, p.w2s[k]? = some v →
+    0 ≤ v ∧ v.toNat < m.contents.length ∧ m.contents[v.toNat]? = p.segs[k]?
+
+structure Inv (m : Mem) : Prop where
+  lenC : m.caps.length = m.hashes.length
+  lenL : m.lens.length = m.hashes.length
+  lenR : m.refs.length = m.hashes.length
+  lenG : m.contents.length = m.hashes.length
+  /-- the bookkeeping hash of every slot is the identity of what the instrument holds -/
+  same : ∀ s, s < m.hashes.length → m.contents[s]? = m.hashes[s]?
+  progs : ∀ p, p ∈ m.progs → ProgOk m p
+  names : m.progs.Pairwise (fun p q => p.name ≠ q.name)
+  /-- slot 0 (idle segment) carries one permanent reference; otherwise references = referring programs -/
+  count : ∀ s, s < m.refs.length →
+    m.refs[s]? = some ((if s = 0 then 1 else 0) + refCount m.progs s)
+  idle : 0 < m.hashes.length
+
+/-- what the property says about an observed driver state (judge for the real `TaborChannelPair`):
+every uploaded program refers to slots that still contain its own data, and a slot is marked
+referenced exactly if the idle sequence (slot 0) or an uploaded program refers to it -/
+def InvObs (m : Mem) : Prop :=
+  (∀ p, p ∈ m.progs → ProgOk m p) ∧
+  (∀ s, s < m.refs.length → 0 < s → ∀ r, m.refs[s]? = some r → (0 < r ↔ 0 < refCount m.progs s)) ∧
+  (∀ r, m.refs[0]? = some r → 0 < r)
+
+instance (m : Mem) (p : Prog) : Decidable (ProgOk m p) := by
+  unfold ProgOk; infer_instance
+
+instance (m : Mem) : Decidable (InvObs m) := by
+  unfold InvObs; infer_instance
+
+def invObsB (m : Mem) : Bool := decide (InvObs m)
+
+def judgeInv (m : Mem) : String :=
+  match m.progs.find? (fun p => ¬ ProgOk m p) with
+  | some p => s!"program-{p.name}-refers-to-a-slot-that-does-not-hold-its-data"
+  | none =>
+    if ¬ (∀ r, m.refs[0]? = some r → 0 < r) then "idle-slot-unreferenced"
+    else if invObsB m then "ok" else "reference-marks-differ-from-references"
+
+/-! ## Line protocol -/
 open Sexp
 
+def errS : Err → Sexp
+  | .noMemory => .list [.atom "error", .atom "runtime_error", .atom "no-memory"]
+  | .fragmentation => .list [.atom "error", .atom "runtime_error", .atom "fragmentation"]
+  | .assertion => .list [.atom "error", .atom "assertion", .atom "-"]
+  | .index => .list [.atom "error", .atom "index_error", .atom "-"]
+  | .emptyArgmax => .list [.atom "error", .atom "value_error", .atom "argmax"]
+  | .valueError => .list [.atom "error", .atom "value_error", .atom "-"]
+  | .keyError => .list [.atom "error", .atom "key_error", .atom "-"]
+
+def ints? (s : Sexp) : Option (List Int) := listOf? int? s
+def nats? (s : Sexp) : Option (List Nat) := listOf? nat? s
+def bools? (s : Sexp) : Option (List Bool) :=
+  listOf? (fun x => match x with | .atom "1" => some true | .atom "0" => some false | _ => none) s
+
+def ofInts (l : List Int) : Sexp := ofList ofInt l
+def ofNats (l : List Nat) : Sexp := ofList ofNat l
+def ofBools (l : List Bool) : Sexp := ofList (fun b => .atom (if b then "1" else "0")) l
+
+def outS (o : Out) : Sexp := .list [.atom "ok", ofInts o.w2s, ofBools o.amend, ofInts o.insert]
+
+def inp? : List Sexp → Option Inp
+  | [h, r, c, t, nh, nl] => do
+    some ⟨← ints? h, ← nats? r, ← nats? c, ← int? t, ← ints? nh, ← nats? nl⟩
+  | _ => none
+
+def out? : Sexp → Option Out
+  | .list [.atom "ok", w, a, ins] => do some ⟨← ints? w, ← bools? a, ← ints? ins⟩
+  | _ => none
+
+def seg? : Sexp → Option (Int × Nat)
+  | .list [h, l] => do some (← int? h, ← nat? l)
+  | _ => none
+
+def op? : Sexp → Option Op
+  | .list [.atom "upload", n, f, segs] => do
+      some (.upload (← nat? n) (← bool? f) (← listOf? seg? segs))
+  | .list [.atom "remove", n] => do some (.remove (← nat? n))
+  | .list [.atom "free", n] => do some (.free (← nat? n))
+  | .list [.atom "cleanup"] => some .cleanup
+  | .list [.atom "clear"] => some .clear
+  | _ => none
+
+def memS (m : Mem) : Sexp :=
+  .list [ofInts m.hashes, ofNats m.caps, ofNats m.lens, ofNats m.refs,
+         ofList (fun p => .list [ofNat p.name, ofInts p.w2s]) m.progs, ofInts m.contents]
+
+def outcomeS : Outcome → Sexp
+  | .ok => .atom "ok"
+  | .error e => errS e
+
+def prog? : Sexp → Option Prog
+  | .list [n, w, s] => do some ⟨← nat? n, ← ints? w, ← ints? s⟩
+  | _ => none
+
 def handle : List Sexp → Sexp
-  | _ => Sexp.err "c19-not-implemented"
+  | [.atom "place", h, r, c, t, nh, nl] =>
+    match inp? [h, r, c, t, nh, nl] with
+    | some i => match findPlace i with
+      | .ok o => outS o
+      | .error e => errS e
+    | none => Sexp.err "bad-args"
+  | [.atom "check", h, r, c, t, nh, nl, impl] =>
+    match inp? [h, r, c, t, nh, nl] with
+    | some i =>
+      let model := match findPlace i with
+        | .ok o => outS o
+        | .error e => errS e
+      let verdict := match out? impl with
+        | some o => .atom (judgePlace i o)
+        | none => .atom "na"
+      .list [.atom "res", model, verdict]
+    | none => Sexp.err "bad-args"
+  | [.atom "history", t, idle, ops] =>
+    match int? t, int? idle, listOf? op? ops with
+    | some t, some idle, some ops =>
+      .list (.atom "trace" :: (trace t idle (Mem.init idle) ops).map
+        (fun r => .list [outcomeS r.2, memS r.1]))
+    | _, _, _ => Sexp.err "bad-args"
+  | [.atom "judge-inv", h, c, l, r, g, ps] =>
+    match ints? h, nats? c, nats? l, nats? r, ints? g, listOf? prog? ps with
+    | some h, some c, some l, some r, some g, some ps =>
+      .list [.atom "judge", .atom (judgeInv ⟨h, c, l, r, ps, g⟩)]
+    | _, _, _, _, _, _ => Sexp.err "bad-args"
+  | _ => Sexp.err "c19-unknown-request"
 
 end QP.C19
